@@ -501,10 +501,33 @@ func sccRule(rc *core.RC, roots []*ssa.Function, what string, only func(*ssa.Fun
 			names = append(names, core.SSAName(f))
 			rc.Touch(core.SSAName(f))
 		}
-		key := "scc{" + strings.Join(shortNames(names), ",") + "}"
 		if !reachable {
 			continue
 		}
+		// the component is known by the members that are entered from outside it: a helper that is added inside the
+		// recursion (or taken out of it) leaves the name, and with it a recorded finding, alone
+		var entries []string
+		for _, f := range comp {
+			for caller, succ := range g.Succ {
+				if in[caller] {
+					continue
+				}
+				called := false
+				for _, s2 := range succ {
+					if s2 == f {
+						called = true
+					}
+				}
+				if called {
+					entries = append(entries, core.SSAName(f))
+					break
+				}
+			}
+		}
+		if len(entries) == 0 {
+			entries = names
+		}
+		key := "scc{" + strings.Join(shortNames(entries), ",") + "}"
 		if only != nil && !only(comp[0]) {
 			continue
 		}
@@ -2275,4 +2298,149 @@ func c06r17(rc *core.RC) {
 		}
 	}
 	rc.Check((!firstRet.IsValid() || assign.Pos() < firstRet) && fromMap, key, assign.Pos(), "fieldUniqueNameNum is the length of the map that numbers the fields and is set in front of every return of tryOptimize: set only behind the early returns (or from another list) it stays 0 for the decoders that cannot use the key bitmaps, and what is sized by it and indexed by fieldIdx is too short (index out of range under DecodeFieldPriorityFirstWin)")
+}
+
+// ---- C06.R18 a lock that is taken is given back on every way out ----
+
+// A sync mutex of the library that stays locked when a function returns blocks every later caller for ever (the
+// decoder cache of the race build is entered by every decoding entry point). Obligation, for every statement
+// X.Lock() / X.RLock() on a sync.Mutex or sync.RWMutex in the library (all build configurations): every path of the
+// flow graph from the statement to a return, or to the end of the function, passes X.Unlock() / X.RUnlock() on the
+// same X, or the function defers it.
+func c06r18(rc *core.RC) {
+	p := rc.P
+	n := 0
+	for _, pk := range p.LibPkgs() {
+		info := pk.TypesInfo
+		for _, fd := range p.Funcs(pk.Name) {
+			if fd.Body == nil {
+				continue
+			}
+			type lockSite struct {
+				call *ast.CallExpr
+				recv string
+				un   string
+			}
+			var sites []lockSite
+			deferred := map[string]bool{}
+			mutexCall := func(call *ast.CallExpr) (recv, method string, ok bool) {
+				sel, isSel := core.Unparen(call.Fun).(*ast.SelectorExpr)
+				if !isSel {
+					return
+				}
+				cn := core.CalleeName(info, call)
+				if !strings.HasPrefix(cn, "sync.Mutex.") && !strings.HasPrefix(cn, "sync.RWMutex.") {
+					return
+				}
+				return types.ExprString(core.Unparen(sel.X)), sel.Sel.Name, true
+			}
+			ast.Inspect(fd.Body, func(m ast.Node) bool {
+				switch x := m.(type) {
+				case *ast.FuncLit:
+					return false
+				case *ast.DeferStmt:
+					if r, meth, ok := mutexCall(x.Call); ok && (meth == "Unlock" || meth == "RUnlock") {
+						deferred[r+"."+meth] = true
+					}
+					return false
+				case *ast.ExprStmt:
+					if call, isCall := x.X.(*ast.CallExpr); isCall {
+						if r, meth, ok := mutexCall(call); ok && (meth == "Lock" || meth == "RLock") {
+							un := "Unlock"
+							if meth == "RLock" {
+								un = "RUnlock"
+							}
+							sites = append(sites, lockSite{call, r, un})
+						}
+					}
+				}
+				return true
+			})
+			if len(sites) == 0 {
+				continue
+			}
+			cf := core.BuildCFGFor(fd, info)
+			rc.Touch(p.FuncName(fd))
+			for i, s := range sites {
+				n++
+				key := fmt.Sprintf("%s/%s.%s#%d given-back-on-every-way-out", p.FuncName(fd), s.recv, strings.TrimPrefix(s.un, "Un"), i+1)
+				if s.un == "RUnlock" {
+					key = fmt.Sprintf("%s/%s.RLock#%d given-back-on-every-way-out", p.FuncName(fd), s.recv, i+1)
+				} else {
+					key = fmt.Sprintf("%s/%s.Lock#%d given-back-on-every-way-out", p.FuncName(fd), s.recv, i+1)
+				}
+				if deferred[s.recv+"."+s.un] {
+					rc.OK(key, s.call.Pos(), "%s.%s() is deferred", s.recv, s.un)
+					continue
+				}
+				sb, si := cf.BlockOf(s.call)
+				if sb == nil {
+					rc.Unknown(key, s.call.Pos(), "the statement is in no block of the flow graph")
+					continue
+				}
+				isUnlock := func(nd ast.Node) bool {
+					found := false
+					ast.Inspect(nd, func(q ast.Node) bool {
+						if _, isLit := q.(*ast.FuncLit); isLit {
+							return false
+						}
+						if c, isCall := q.(*ast.CallExpr); isCall {
+							if r, meth, ok := mutexCall(c); ok && r == s.recv && meth == s.un {
+								found = true
+							}
+						}
+						return !found
+					})
+					return found
+				}
+				seen := map[*cfg.Block]bool{}
+				var leak ast.Node
+				var walk func(b *cfg.Block, from int)
+				walk = func(b *cfg.Block, from int) {
+					if leak != nil {
+						return
+					}
+					for j := from; j < len(b.Nodes); j++ {
+						if isUnlock(b.Nodes[j]) {
+							return
+						}
+						if r, isRet := b.Nodes[j].(*ast.ReturnStmt); isRet {
+							leak = r
+							return
+						}
+					}
+					if len(b.Succs) == 0 {
+						// the end of the function body (a block that ends in a call that does not return is no way out)
+						if len(b.Nodes) == 0 {
+							leak = fd.Body
+							return
+						}
+						last := b.Nodes[len(b.Nodes)-1]
+						if es, isES := last.(*ast.ExprStmt); isES {
+							if c, isCall := es.X.(*ast.CallExpr); isCall && core.IsBuiltin(info, c, "panic") {
+								return
+							}
+						}
+						leak = last
+						return
+					}
+					for _, nx := range b.Succs {
+						if !seen[nx] {
+							seen[nx] = true
+							walk(nx, 0)
+						}
+					}
+				}
+				walk(sb, si+1)
+				if leak != nil {
+					rc.Bad(key, s.call.Pos(), "%s is still locked on the way out at %s: every later call that takes this lock blocks for ever", s.recv, p.Pos(leak.Pos()))
+				} else {
+					rc.OK(key, s.call.Pos(), "every path to a way out of the function passes %s.%s()", s.recv, s.un)
+				}
+			}
+		}
+	}
+	if n < 2 {
+		rc.Unknown("library/lock-sites", token.NoPos, "found %d Lock/RLock statements in this configuration, fewer than the 2 confirmed by hand", n)
+	}
 }
